@@ -49,7 +49,7 @@ enum Expected {
     Data(Vec<WirePdu>, Vec<(u32, u32, u32)>),
     CacheReset { v: u8 },
     /// An Error PDU; for the unsupported-version case the code must be 4 and
-    /// the version 2.
+    /// the version one the server supports.
     Error { unsupported_version: bool },
 }
 
@@ -486,6 +486,9 @@ impl C08 {
                             }
                         }
                     }
+                    A_NOTIFY if sender_gone => {
+                        counters.bump("notify_on_closed_channel");
+                    }
                     A_NOTIFY => {
                         let (consumed, inflight) = {
                             let p = c2s.lock().unwrap();
@@ -524,7 +527,7 @@ impl C08 {
                         } else {
                             counters.bump("fault_update");
                         }
-                        if ctx.chance(3, 4) {
+                        if ctx.chance(3, 4) && !sender_gone {
                             notify.notify();
                             ctx.ev(3, 0, || "notify (after update)".into());
                         }
@@ -732,7 +735,10 @@ impl C08 {
                             WirePdu::EndOfData { v: v1, session: s1, serial: n1, timing: Some(_) },
                             WirePdu::EndOfData { v: v2, session: s2, serial: n2, timing: Some(t2) },
                         ) = (&want[j], p) {
-                            same = v1 == v2 && s1 == s2 && n1 == n2 && (timings.is_empty() || timings.contains(t2));
+                            // (a timing that the source never reported around this
+                            // query - e.g. a value cached from an earlier one - is
+                            // not a function of the source)
+                            same = v1 == v2 && s1 == s2 && n1 == n2 && timings.contains(t2);
                         }
                     } else {
                         // parsed values agree: the bytes (reserved fields
@@ -938,7 +944,7 @@ impl Scenario for C08 {
         vec![
             "the source reports ready() == true throughout (the not-ready Error PDU is exercised in C06)",
             "erroneous units that are exactly one 8-byte header long (unknown type, other version, too-new version) may appear anywhere and the queries after them must still be answered; an erroneous unit longer than its header (wrong length, Serial Query with a bad version) leaves the stream unframed, so at most one of those per script, placed last, and nothing is required after its Error PDU",
-            "Error PDUs are compared by type and framing only, plus code 4 / version 2 for the unsupported-version case",
+            "Error PDUs are compared by type and framing only, plus code 4 in a supported version for the unsupported-version case",
             "ASPA withdraw PDUs are compared by customer only",
             "tokio's current-thread scheduler is deterministic given deterministic wake-ups (checked by `selftest determinism`)",
         ]
